@@ -1,0 +1,26 @@
+//go:build verif
+
+// Package verifhook provides yield points for deterministic schedule exploration.
+// With the "verif" build tag, Yield forwards to a handler installed by the verification
+// harness; with no handler installed it does nothing.
+package verifhook
+
+import "sync/atomic"
+
+var handler atomic.Value // of func(point string)
+
+// SetHandler installs (or, with nil, removes) the function called at every yield point.
+func SetHandler(h func(point string)) {
+	if h == nil {
+		handler.Store((func(string))(nil))
+		return
+	}
+	handler.Store(h)
+}
+
+// Yield marks a point at which a controlled scheduler may preempt the calling goroutine.
+func Yield(point string) {
+	if h, _ := handler.Load().(func(string)); h != nil {
+		h(point)
+	}
+}
